@@ -1,0 +1,191 @@
+//go:build verif
+
+package internal
+
+import (
+	"context"
+	"encoding/json"
+	"fmt"
+	"net"
+	"reflect"
+	"strconv"
+	"strings"
+	"sync"
+	"sync/atomic"
+	"testing"
+	"time"
+
+	"github.com/gotid/god/internal/verifdrv"
+	"github.com/gotid/god/lib/logx"
+	"github.com/gotid/god/rpc/internal/balancer/p2c"
+	"github.com/gotid/god/rpc/internal/mock"
+	"google.golang.org/grpc"
+	"google.golang.org/grpc/credentials/insecure"
+)
+
+// verifBackends are in-process grpc servers on loopback ports; every served call is counted per server.
+type verifBackends struct {
+	addrs  []string
+	counts []int64
+	stop   []func()
+}
+
+var (
+	verifOnce sync.Once
+	verifBk   verifBackends
+	verifErr  error
+)
+
+func verifStartBackends(n int) {
+	verifBk.counts = make([]int64, n)
+	for i := 0; i < n; i++ {
+		i := i
+		lis, err := net.Listen("tcp", "127.0.0.1:0")
+		if err != nil {
+			verifErr = err
+			return
+		}
+		srv := grpc.NewServer(grpc.UnaryInterceptor(func(ctx context.Context, req interface{}, info *grpc.UnaryServerInfo,
+			handler grpc.UnaryHandler) (interface{}, error) {
+			atomic.AddInt64(&verifBk.counts[i], 1)
+			return handler(ctx, req)
+		}))
+		mock.RegisterDepositServiceServer(srv, &mock.DepositServer{})
+		go srv.Serve(lis)
+		verifBk.addrs = append(verifBk.addrs, lis.Addr().String())
+		verifBk.stop = append(verifBk.stop, srv.Stop)
+	}
+}
+
+type verifCliOpt struct {
+	O   string `json:"o"`   // dial | nonblock | timeout | creds | unary | stream
+	Tag int    `json:"tag"` // dial: identity of the user dial option
+	Ms  int    `json:"ms"`  // timeout
+}
+
+type verifCliCase struct {
+	Backends int           `json:"backends"`
+	Opts     []verifCliOpt `json:"opts"`
+	Calls    int           `json:"calls"`
+}
+
+// verifOptions builds the ClientOptions of a case; user dial options are remembered by identity.
+func verifOptions(c verifCliCase, known map[grpc.DialOption]string, unaryHits *int64) []ClientOption {
+	var opts []ClientOption
+	for _, o := range c.Opts {
+		switch o.O {
+		case "dial":
+			d := grpc.WithUserAgent("verif-" + strconv.Itoa(o.Tag))
+			known[d] = "u" + strconv.Itoa(o.Tag)
+			opts = append(opts, WithDialOption(d))
+		case "nonblock":
+			opts = append(opts, WithNonBlock())
+		case "timeout":
+			opts = append(opts, WithTimeout(time.Duration(o.Ms)*time.Millisecond))
+		case "creds":
+			opts = append(opts, WithTransportCredentials(insecure.NewCredentials()))
+		case "unary":
+			opts = append(opts, WithUnaryClientInterceptor(func(ctx context.Context, method string, req, reply interface{},
+				cc *grpc.ClientConn, invoker grpc.UnaryInvoker, co ...grpc.CallOption) error {
+				atomic.AddInt64(unaryHits, 1)
+				return invoker(ctx, method, req, reply, cc, co...)
+			}))
+		case "stream":
+			opts = append(opts, WithStreamClientInterceptor(func(ctx context.Context, desc *grpc.StreamDesc, cc *grpc.ClientConn,
+				method string, streamer grpc.Streamer, co ...grpc.CallOption) (grpc.ClientStream, error) {
+				return streamer(ctx, desc, cc, method, co...)
+			}))
+		}
+	}
+	return opts
+}
+
+// TestVerifDriver: for a sequence of ClientOptions (a) assembles the dial options the way NewClient does and
+// labels them (known user options and the balancer option by identity, everything else "?"), (b) creates a real
+// client with NewClient against 2-3 in-process backends, reads back the default service config and the name of
+// the balancer in use from the ClientConn, issues calls and counts which backend served them.
+func TestVerifDriver(t *testing.T) {
+	logx.Disable()
+	verifdrv.Run(t, func(raw json.RawMessage) any {
+		var c verifCliCase
+		if err := json.Unmarshal(raw, &c); err != nil {
+			return map[string]any{"error": err.Error()}
+		}
+		verifOnce.Do(func() { verifStartBackends(3) })
+		if verifErr != nil {
+			return map[string]any{"error": verifErr.Error()}
+		}
+		if c.Backends < 1 || c.Backends > len(verifBk.addrs) {
+			return map[string]any{"error": "backends out of range"}
+		}
+
+		// (a) the assembled dial options, as NewClient assembles them (client.go:50-55, buildDialOptions)
+		known := map[grpc.DialOption]string{}
+		var hits int64
+		bal := grpc.WithDefaultServiceConfig(fmt.Sprintf(`{"loadBalancingPolicy":"%s"}`, p2c.Name))
+		known[bal] = "svc"
+		var cl client
+		assembled := cl.buildDialOptions(append([]ClientOption{WithDialOption(bal)}, verifOptions(c, known, &hits)...)...)
+		labels := make([]string, len(assembled))
+		for i, d := range assembled {
+			if l, ok := known[d]; ok {
+				labels[i] = l
+			} else {
+				labels[i] = "?"
+			}
+		}
+
+		// (b) the real thing
+		for i := range verifBk.counts {
+			atomic.StoreInt64(&verifBk.counts[i], 0)
+		}
+		hits = 0
+		target := "direct:///" + strings.Join(verifBk.addrs[:c.Backends], ",")
+		cli, err := NewClient(target, verifOptions(c, map[grpc.DialOption]string{}, &hits)...)
+		if err != nil {
+			return map[string]any{"labels": labels, "dial_err": err.Error()}
+		}
+		conn := cli.Conn()
+		defer conn.Close()
+		svc := "<nil>"
+		if p := reflect.ValueOf(conn).Elem().FieldByName("dopts").FieldByName("defaultServiceConfigRawJSON"); p.IsValid() && !p.IsNil() {
+			svc = p.Elem().String()
+		}
+		dc := mock.NewDepositServiceClient(conn)
+		calls, errs := 0, 0
+		served := func() bool {
+			for i := 0; i < c.Backends; i++ {
+				if atomic.LoadInt64(&verifBk.counts[i]) == 0 {
+					return false
+				}
+			}
+			return true
+		}
+		// c.Calls calls; if some backend is still unserved (its connection may not be up yet) keep calling,
+		// bounded by 20x the calls and 3 s
+		deadline := time.Now().Add(3 * time.Second)
+		for calls < c.Calls || (!served() && calls < 20*c.Calls && time.Now().Before(deadline)) {
+			ctx, cancel := context.WithTimeout(context.Background(), 2*time.Second)
+			if _, err := dc.Deposit(ctx, &mock.DepositRequest{Amount: 0}); err != nil {
+				errs++
+			}
+			cancel()
+			calls++
+		}
+		balancerName := "<unknown>"
+		if bw := reflect.ValueOf(conn).Elem().FieldByName("balancerWrapper"); bw.IsValid() && !bw.IsNil() {
+			if f := bw.Elem().FieldByName("curBalancerName"); f.IsValid() {
+				balancerName = f.String()
+			}
+		}
+		counts := make([]int64, c.Backends)
+		for i := range counts {
+			counts[i] = atomic.LoadInt64(&verifBk.counts[i])
+		}
+		return map[string]any{"labels": labels, "dial_err": "", "svc": svc, "balancer": balancerName,
+			"counts": counts, "calls": calls, "errs": errs, "unary_hits": atomic.LoadInt64(&hits)}
+	})
+	for _, s := range verifBk.stop {
+		s()
+	}
+}
